@@ -193,6 +193,9 @@ def method(ex, base, name, e, st):
                 ex.assign(tgt, new, st)  # local collections are values: rebinding models the in-place update
             return NameV(x)
         if name in ("append", "add"):
+            if isinstance(args[0], Opaque) or (isinstance(args[0], StrLit) and not args[0].s.isidentifier()):
+                ex.assign(tgt, ErrList(z3.BoolVal(True)), st)  # a list of messages: only its emptiness is modelled
+                return NONE
             x = ex.name_term(args[0])
             if base.elems is not None:
                 new = Coll.explicit(base.elems + [x], is_list=base.is_list)
